@@ -20,7 +20,7 @@ pub enum Op {
 
 #[derive(Debug, Clone, Serialize, Deserialize)]
 pub struct Case {
-    pub allowance: u16,
+    pub allowance: u32,
     pub ops: Vec<Op>,
 }
 
@@ -144,7 +144,24 @@ fn op() -> impl Strategy<Value = Op> {
 
 pub fn build(ctx: &Ctx) -> Vec<Box<dyn Arm>> {
     ctx.rule("a memory with one committed frame receives a ticket whose capacity is the current payload end + allowance (0..4096 bytes); then 1..14 ops: incompressible binary puts of 1..1600 bytes (stored length == payload length, so the projection is exact), text puts (compressed / chunked), commits, reopen; oracle: after every commit point the stored payload bytes added since the ticket are <= the allowance (implied by any correct limit on the region's end offset); a binary put with committed + pending + its own stored bytes > allowance must return CapacityExceeded, and a rejected put leaves frame_count, next_frame_id and the file's sha256 unchanged; non-trivial = a put crosses the limit while earlier puts are still uncommitted");
-    ctx.assume("capacity is measured the way the code measures it (absolute offset of the payload region end); payloads are kept small so the embedded log never grows in these histories");
+    ctx.assume("capacity is measured the way the code measures it (absolute offset of the payload region end); the first arm keeps payloads small so the embedded log never grows; the second arm makes it grow (the code then measures against shifted absolute offsets and may reject earlier than the byte-count model, which the one-directional oracle allows)");
     let t = ctx.tier;
-    vec![arm_with("history", t.pick(240, 10_000), 8, t.pick(100, 300), || (prop_oneof![0u16..128, 0u16..4096], prop::collection::vec(op(), 1..14)).prop_map(|(allowance, ops)| Case { allowance, ops }), check)]
+    ctx.rule("arm log_growth: allowance 60..300 KB and incompressible puts of 15..60 KB mostly without commits, so the embedded log (64 KiB) has to grow while acknowledged puts are pending and further puts then cross the limit; same oracle");
+    vec![
+        arm_with("history", t.pick(240, 10_000), 8, t.pick(100, 300), || (prop_oneof![0u32..128, 0u32..4096], prop::collection::vec(op(), 1..14)).prop_map(|(allowance, ops)| Case { allowance, ops }), check),
+        arm_with(
+            "log_growth",
+            t.pick(60, 1500),
+            8,
+            t.pick(60, 200),
+            || {
+                (
+                    60_000u32..300_000,
+                    prop::collection::vec(prop_oneof![10 => (15_000u16..60_000).prop_map(|len| Op::PutBin { len }), 2 => (0u16..2000).prop_map(|len| Op::PutBin { len }), 1 => Just(Op::Commit)], 3..12),
+                )
+                    .prop_map(|(allowance, ops)| Case { allowance, ops })
+            },
+            check,
+        ),
+    ]
 }
